@@ -36,10 +36,48 @@ def scenarios(tier, seed):
     if tier == "thorough":
         out.append(scenario("DDR3-phases2", "DDR3", sets[1], seed + 6, tech=dict(tREFI=1600), phy=dict(cl_cwl=[10, 7])))
         out.append(scenario("DDR4-phases", "DDR4", sets[0], seed + 7, tech=dict(tREFI=1600), phy=dict(cl_cwl=[11, 9])))
+    return out + lockstep_scenarios(tier, seed)
+
+
+def _lockstep(sc, workdir):
+    from .. import bmlock
+    r = bmlock.run_bm(sc, workdir)
+    notes = []
+    if r["mismatches"]:
+        notes.append("MODEL-DRIFT module=BankMachine cycle=%s signal=%s (D_BankMachine no longer equals the code; exhaustive result not bound)"
+                     % (r["mismatches"][0][0], r["mismatches"][0][1]))
+    return dict(bad=[], evaluations=r["cycles"], nontrivial=[["lockstep", sc["name"]]] if r["issued"] > 50 else [], traces=1,
+                sample=dict(consts=r["consts"], issued=r["issued"], first=r["sample"][:2]), notes=notes,
+                lockstep=r["cycles"], stats=dict(lockstep_cycles=r["cycles"], lockstep_commands=r["issued"]))
+
+
+def lockstep_scenarios(tier, seed):
+    out = []
+    variants = [dict(depth=2, ap=True, tRP=2, tRCD=2, tWR=2, tCCD=1, tRC=5, tRAS=3, cwl=2, nphases=2, colbits=3, align=2, nrows=2),
+                dict(depth=2, ap=False, tRP=3, tRCD=2, tWR=1, tCCD=1, tRC=6, tRAS=3, cwl=1, nphases=1, colbits=4, align=2, nrows=3),
+                dict(depth=4, ap=True, tRP=1, tRCD=1, tWR=2, tCCD=2, tRC=None, tRAS=None, cwl=3, nphases=4, colbits=3, align=2, nrows=2),
+                dict(depth=8, ap=True, tRP=4, tRCD=3, tWR=3, tCCD=1, tRC=9, tRAS=6, cwl=5, nphases=4, colbits=4, align=3, nrows=4)]
+    for j, v in enumerate(variants if tier == "quick" else variants * 3):
+        out.append(dict(name="lockstep-bankmachine-%d" % j, kind="lockstep", seed=seed * 19 + j,
+                        ncyc=5000 if tier == "quick" else 20000, params=dict(v, pref=0.03 + 0.02 * (j % 3), pready=0.4 + 0.15 * (j % 4))))
     return out
 
 
+def models(tier, seed):
+    ms = [dict(module="MC_BankMachine", cfg="MC_BankMachine_quick.cfg", label="bank machine + device observer (auto-precharge)", workers=4, timeout=2400),
+          dict(module="MC_BankMachine", cfg="MC_BankMachine_neg_twtp.cfg", label="negative control: write-to-precharge one cycle short", workers=2, timeout=2400, expect_violation=True),
+          dict(module="MC_BankMachine", cfg="MC_BankMachine_neg_reftras.cfg", label="negative control: refresh granted without waiting tRAS (defect fixed in 7014c8e)", workers=2, timeout=2400, expect_violation=True),
+          dict(module="MC_BankMachine", cfg="MC_BankMachine_cover_ap.cfg", label="cover: AUTOPRECHARGE state", workers=1, timeout=1200, expect_violation=True),
+          dict(module="MC_BankMachine", cfg="MC_BankMachine_cover_ref.cfg", label="cover: refresh requested inside tRAS", workers=1, timeout=1200, expect_violation=True)]
+    if tier == "thorough":
+        ms += [dict(module="MC_BankMachine", cfg="MC_BankMachine_noap.cfg", label="bank machine without auto-precharge", workers=4, timeout=3000),
+               dict(module="MC_BankMachine", cfg="MC_BankMachine_thorough.cfg", label="bank machine 2 rows x 2 columns, longer timers", workers=8, timeout=3400, xmx="20g")]
+    return ms
+
+
 def execute(sc, workdir):
+    if sc.get("kind") == "lockstep":
+        return _lockstep(sc, workdir)
     r = execute_core(sc, workdir, ID, ("dev", "link"))
     r["nontrivial"] = [[sc["memtype"], sc["rate"], sc.get("nranks", 1), k] for k in r["kinds"]
                        if k in ("ACT", "PRE", "PREA", "RD", "WR", "REF", "ZQCS")]
